@@ -163,6 +163,8 @@ where
     /// it is repeated by the following operations while its reason holds.
     async fn try_send_msg(&self, msg: Msg) {
         if let ObserverState::Running(sender, _) = &self.state {
+            #[cfg(pearl_verif)]
+            crate::verif::point(crate::verif::Label::Send).await;
             if let Err(e) = sender.try_send(msg) {
                 debug!("Notification was not sent to worker: {:?}", e);
             }
